@@ -55,6 +55,26 @@ func drawRules(t *rapid.T, c *hx.Case, resources []string, big bool) []mrule {
 	if _, err := isolation.LoadRules(rules); err != nil {
 		t.Fatalf("LoadRules: %v", err)
 	}
+	if len(ms) > 0 && rapid.IntRange(0, 3).Draw(t, "invalidOnlyInBetween") == 0 {
+		// a resource is then given a list of invalid rules only (nothing is in force for it), and the first list is loaded again:
+		// it is in force again
+		res := ms[rapid.IntRange(0, len(ms)-1).Draw(t, "resourceGivenInvalidRules")].res
+		if _, err := isolation.LoadRulesOfResource(res, []*isolation.Rule{{ID: "bad", Resource: res, MetricType: isolation.Concurrency, Threshold: 0}}); err != nil {
+			c.Op("invalid-only list for %s: %v", res, err)
+		}
+		if got := isolation.GetRulesOfResource(res); len(got) != 0 {
+			t.Fatalf("after loading only invalid rules for %s the module still reports %v", res, got)
+		}
+		var again []*isolation.Rule
+		for _, r := range rules {
+			x := *r
+			again = append(again, &x)
+		}
+		if _, err := isolation.LoadRules(again); err != nil {
+			t.Fatalf("LoadRules (again): %v", err)
+		}
+		c.Class("valid-rules-loaded-again-after-an-invalid-only-list")
+	}
 	return ms
 }
 
